@@ -308,3 +308,95 @@ Theorem C09_removeoverlaps_no_overlap_static_refine_only_partial mklt xB yB rs f
   no_overlap xB yB (ro_rects r).
 Proof. exact (fun S T R X Y => pipeline_no_overlap_static_refine_only_partial mklt S T R xB yB X Y rs fixed third r). Qed.
 Print Assumptions C09_removeoverlaps_no_overlap_static_refine_only_partial.
+
+(* ================= degenerate sizes and call sequences (Rect/RemoveOverlapsSmall.v; follow-up on seeded change C09-6).
+   C09_borders_restored above already quantifies over every rectangle list, the empty one and the singletons included
+   (the model, like rectangle.cpp, has no special case for n < 2).  Unconditional form: the model always returns, and the
+   border globals are the caller's - for every n >= 0; non-vacuity for n = 0 and n = 1: borders_restored_n0 / _n1. *)
+From Adapt Require Import Rect.RemoveOverlapsSmall.
+
+Theorem C09_borders_restored_every_n mklt solve xB yB rs fixed third :
+  exists r, removeoverlaps mklt solve xB yB rs fixed third = Some r /\ ro_xBorder r = xB /\ ro_yBorder r = yB.
+Proof. exact (borders_restored_total mklt solve xB yB rs fixed third). Qed.
+Print Assumptions C09_borders_restored_every_n.
+
+(* several calls in one process, each reading the border globals the previous call left: after every call the globals
+   are the caller's and every rectangle has the size it came with *)
+Theorem C09_call_sequence_borders_sizes mklt solve
+  (Hs : forall d w cs, length (solve d w cs) = length d) calls xB yB :
+  exists outs, ro_seq mklt solve xB yB calls = Some (xB, yB, outs) /\
+               Forall2 (fun c o => Forall2 same_size (call_rects c) o) calls outs.
+Proof. exact (ro_seq_borders mklt solve Hs calls xB yB). Qed.
+Print Assumptions C09_call_sequence_borders_sizes.
+
+(* zero or one rectangle: no constraint in any pass, nothing moves (solver returning the desired positions when there
+   is no constraint), borders restored *)
+Theorem C09_removeoverlaps_small mklt solve xB yB rs fixed third :
+  (forall pos, strict (mklt pos)) ->
+  (forall pos a b, mklt pos a b = true -> (a < length pos)%nat /\ (b < length pos)%nat) ->
+  (forall d w, solve d w [] = d) -> (length rs <= 1)%nat ->
+  exists r, removeoverlaps mklt solve xB yB rs fixed third = Some r /\
+            ro_xBorder r = xB /\ ro_yBorder r = yB /\ Forall2 rect_eq rs (ro_rects r).
+Proof. exact (fun S R N => removeoverlaps_small mklt S R solve N xB yB rs fixed third). Qed.
+Print Assumptions C09_removeoverlaps_small.
+
+(* the seeded variant (return for n < 2 after the padding, before the restoration) violates borders_restored and
+   changes the size read through the getters: witnesses n = 0 and n = 1 *)
+Theorem C09_early_return_refuted :
+  (exists rs fixed third r, length rs = 0%nat /\
+     removeoverlaps_early_return cmp1 id_solver 0 0 rs fixed third = Some r /\ ~ (ro_xBorder r == 0 /\ ro_yBorder r == 0)) /\
+  (exists rs fixed third r, length rs = 1%nat /\
+     removeoverlaps_early_return cmp1 id_solver 0 0 rs fixed third = Some r /\ ~ (ro_xBorder r == 0 /\ ro_yBorder r == 0) /\
+     ~ width (ro_xBorder r) (nthr (ro_rects r) 0) == width 0 (nthr rs 0)).
+Proof. exact early_return_refuted. Qed.
+Print Assumptions C09_early_return_refuted.
+
+(* ================= Variables that share an id (Rect/DupIds.v; follow-up on seeded change C09-5).  Variable::id is
+   documentation only, so equal ids are valid input of the public generators.  HEAD's CmpNodePos (position, id when the
+   ids differ, Node address) is total on distinct Node objects for EVERY id list, so the chain lemma gives completeness
+   for any ids and either order of the tied nodes; the seeded comparator (position, then id only) is not total and loses
+   the constraints between tied rectangles. *)
+From Adapt Require Import Rect.DupIds.
+
+Theorem C09_dup_ids_no_overlap ids addr xb yb rs :
+  (forall i j, addr i = addr j -> i = j) -> valid_rects xb yb rs ->
+  (forall cs, generateYConstraints (cmp_node_pos_id ids addr) xb yb rs = Some cs ->
+     forall p, sat p cs -> forall i j, (i < length rs)%nat -> (j < length rs)%nat -> i <> j ->
+       ~ overlaps_pos xb yb (moveCentreY yb (nthr rs i) (p i)) (moveCentreY yb (nthr rs j) (p j))) /\
+  (forall cs, generateXConstraints (cmp_node_pos_id ids addr) xb yb rs false = Some cs ->
+     forall p, sat p cs -> forall i j, (i < length rs)%nat -> (j < length rs)%nat -> i <> j ->
+       ~ overlaps_pos xb yb (moveCentreX xb (nthr rs i) (p i)) (moveCentreX xb (nthr rs j) (p j))).
+Proof.
+  exact (fun I V => conj (dup_ids_genY_no_overlap ids addr I xb yb rs V) (dup_ids_genX_no_overlap ids addr I xb yb rs V)).
+Qed.
+Print Assumptions C09_dup_ids_no_overlap.
+
+Theorem C09_idonly_comparator_refuted :
+  exists ids xb yb rs cs p i j,
+    valid_rects xb yb rs /\
+    generateYConstraints (cmp_node_pos_idonly ids) xb yb rs = Some cs /\
+    sat p cs /\ (i < length rs)%nat /\ (j < length rs)%nat /\ i <> j /\
+    overlaps_pos xb yb (moveCentreY yb (nthr rs i) (p i)) (moveCentreY yb (nthr rs j) (p j)) /\
+    entail_checkY xb yb rs cs = false /\
+    generateYConstraints (cmp_node_pos_id ids (fun a => a)) xb yb rs = Some [mkc 0 1 2].
+Proof. exact idonly_incomplete_refuted. Qed.
+Print Assumptions C09_idonly_comparator_refuted.
+
+(* ---- refine's premise reduced (Vpsc/StaticRefine.v, Rect/PipelineStatic.pipeline_no_overlap_static_passes_partial):
+   no overlap, given only that every pass of refine's while loop on the last pass's trace returns with every slack >= 0
+   (`passes_ok`): the closing scan of refine cannot throw from an all-satisfied state and exhausting maxtries is a
+   normal return.  Still _partial: `passes_ok` (Blocks::split keeps every constraint satisfied on DAGs) is proved only
+   for the mergeRight half under the out-heap minimum hypothesis (C01_static_merge_right_all_sat_partial); the
+   UNCONDITIONAL C09_removeoverlaps_no_overlap_static is NOT registered. *)
+Theorem C09_removeoverlaps_no_overlap_static_passes_partial mklt xB yB rs fixed third r :
+  (forall pos, strict (mklt pos)) -> (forall pos, total_on (mklt pos) (length pos)) ->
+  (forall pos a b, mklt pos a b = true -> (a < length pos)%nat /\ (b < length pos)%nat) ->
+  0 <= xB -> 0 <= yB ->
+  good_rects rs -> (Z.of_nat (length rs) <= 10000000)%Z ->
+  removeoverlaps mklt static_solve_fn xB yB rs fixed third = Some r ->
+  (forall rsl csl d s1, last_pass mklt xB yB third rsl csl d ->
+     StaticModel.static_satisfy (StaticModel.static_init (mkvars d (weights (length rs) fixed)) (mkcons csl)) = VpscModel.Ok s1 ->
+     StaticRefine.passes_ok VpscModel.MAXTRIES s1) ->
+  no_overlap xB yB (ro_rects r).
+Proof. exact (fun S T R X Y => pipeline_no_overlap_static_passes_partial mklt S T R xB yB X Y rs fixed third r). Qed.
+Print Assumptions C09_removeoverlaps_no_overlap_static_passes_partial.
